@@ -477,6 +477,8 @@ func (e *Env) Monitor(st *Step) {
 		e.monitorDecay(st)
 	}
 	e.monitorSettled(st, f, kind, ok)
+	e.monitorSplit(st, kind, ok)
+	e.monitorWeightSettled(st, ok)
 
 	// ---- C14 / C16 asset validity -----------------------------------------------------------------------------
 	for _, a := range post.Assets {
